@@ -71,6 +71,7 @@ func (u *Unit) call(st *State, x *ast.CallExpr) *Val {
 	}
 	fn, recvExpr, fvar := u.calleeOf(x)
 	resT := u.typeOf(x)
+	u.callAsserts(st, x)
 	var recv *Val
 	if recvExpr != nil && fn != nil {
 		if k := kindOf(u.typeOf(recvExpr)); k == kAtomic || namedPath(types.Unalias(u.typeOf(recvExpr))) == "sync/atomic.Bool" {
@@ -1132,4 +1133,23 @@ func (e *Engine) pkgOr(path string, def *packages.Package) *packages.Package {
 		return p
 	}
 	return def
+}
+
+// callAsserts: obligations attached to a call site of the function under verification
+// (`at call <callee> <n> assert <expr>`), evaluated over the caller's locals just before the call.
+func (u *Unit) callAsserts(st *State, x *ast.CallExpr) {
+	if u.ct == nil || len(u.ct.CallAsserts) == 0 || u.quiet > 0 {
+		return
+	}
+	key := fmt.Sprintf("%s#%d", calleeShortName(x), u.callOrd[x])
+	for _, ca := range u.ct.CallAsserts {
+		if ca.Text != key {
+			continue
+		}
+		u.callAssertSeen[ca.N] = true
+		env := u.specEnvLocal(st, x.Pos(), 0)
+		env.what = u.name + " at call " + key
+		g, q := u.evalSpecBool(st, ca.E, env, false)
+		u.oblige(st, fmt.Sprintf("at-call(%s).assert.%d", key, ca.N), "call-assert", ca.E.String(), g, q)
+	}
 }
